@@ -30,6 +30,7 @@ from esp_kconfiglib.core import INT
 from esp_kconfiglib.core import MENU
 from esp_kconfiglib.core import STRING
 from esp_kconfiglib.core import Choice
+from esp_kconfiglib.core import KconfigError
 from esp_kconfiglib.core import MenuNode
 from esp_kconfiglib.core import Symbol
 from esp_kconfiglib.core import _recursively_perform_action
@@ -343,6 +344,9 @@ class MenuConfigState:
             if e.errno:
                 msg += f" (errno: {errno.errorcode[e.errno]})"
             return False, msg
+        except KconfigError as e:
+            # E.g. a file that is not valid UTF-8
+            return False, f"Error loading '{filename}'\n\n{e}"
 
     def reload_sdkconfig_file(self, filename: str) -> None:
         self.kconf.load_config(filename, replace=True, is_main_sdkconfig=True)
